@@ -182,9 +182,9 @@ impl Prop for Synthesis {
         let base = gen_engine_case(t, 24, 12, true, GenOpts::default());
         let alignment = t.chance(0.25);
         let times = if alignment && t.chance(0.7) && !base.labels.is_empty() {
-            let (rate0, fp0, nstate) = match &base.voice {
-                crate::engine_case::VoiceChoice::Generated(v) => (v.sampling_frequency, v.frame_period, v.num_states),
-                _ => (48000, 240, 5),
+            let (rate0, fp0, nstate) = match base.voice.base_spec() {
+                Some(v) => (v.sampling_frequency, v.frame_period, v.num_states),
+                None => (48000, 240, 5),
             };
             let rate = base.cond.rate.unwrap_or(rate0);
             let fp = base.cond.fperiod.unwrap_or(fp0);
